@@ -250,11 +250,10 @@ def parseCharge (s : List Char) : R Int :=
 def liftE {α : Type} (e : Except Err α) : R α := some e
 
 /-- the annotation part of one ATOM/HETATM line (80 characters) -/
-def parseAtomLine (l : List Char) : R AtomRead :=
+def parseAtomLineAny (l : List Char) : R AtomRead :=
   match decodeH36 (slice 22 26 l) with
   | .error e => some (.error e)
   | .ok resId =>
-  if slice 16 17 l != [' '] then none else
   if (strip (slice 76 78 l)).isEmpty then none else
   match parseCharge (slice 78 80 l) with
   | none => none
@@ -275,6 +274,12 @@ def parseAtomLine (l : List Char) : R AtomRead :=
                 insCode := strip (slice 26 27 l), resName := strip (slice 17 20 l),
                 name := strip (slice 12 16 l), element := strip (slice 76 78 l), atomId := aid,
                 occ := occ, bf := bf, charge := q })
+
+/-- a record without alternate location (what `set_structure` writes) -/
+def parseAtomLine (l : List Char) : R AtomRead :=
+  if slice 16 17 l != [' '] then
+    (match decodeH36 (slice 22 26 l) with | .error e => some (.error e) | .ok _ => none)
+  else parseAtomLineAny l
 
 def parseCoordLine (l : List Char) : R (Int × Int × Int) :=
   match (parseFixed (slice 30 38 l)).units 3, (parseFixed (slice 38 46 l)).units 3,
@@ -385,6 +390,73 @@ def readPdb (inclBonds : Bool) (lines0 : List (List Char)) : R FileRead :=
           | some (.error e) => some (.error e)
           | some (.ok bs) => some (.ok { atoms := atoms, models := coords, bonds := bs })
         else some (.ok { atoms := atoms, models := coords, bonds := [] })
+
+/-! ## non-finite input (NaN, ±inf in coordinates, B-factor, occupancy) -/
+
+/-- a float that may be non-finite -/
+inductive Num where
+  | fin (x : Fx)
+  | nan
+  | inf (neg : Bool)
+  deriving DecidableEq, Repr
+
+def Num.isFinite : Num → Bool
+  | .fin _ => true
+  | _ => false
+
+def Num.fin? : Num → Option Fx
+  | .fin x => some x
+  | _ => none
+
+/-- Python `format(x, ".df")` incl. non-finite values: their text is short and would fit any column -/
+def fmtNum (d : Nat) : Num → List Char
+  | .fin x => fmtFixed d x
+  | .nan => "nan".toList
+  | .inf false => "inf".toList
+  | .inf true => "-inf".toList
+
+/-- `_check_number_columns(values, spec, n_columns, …)` for one value: `not isfinite -> raise`, then the width -/
+def checkNumCol (d w : Nat) (x : Num) : Bool := x.isFinite && decide ((fmtNum d x).length ≤ w)
+
+structure AtomN where
+  hetero : Bool
+  atomId : Int
+  name : List Char
+  resName : List Char
+  chain : List Char
+  resId : Int
+  insCode : List Char
+  element : List Char
+  occ : Num
+  bf : Num
+  charge : Int
+  deriving DecidableEq, Repr
+
+abbrev CoordN := Num × Num × Num
+
+structure StructN where
+  atoms : List AtomN
+  models : List (List CoordN)
+  bonds : List (Nat × Nat)
+  deriving Repr
+
+/-- the finite image of an atom; an annotation that is not present (`flag = false`) does not matter -/
+def AtomN.toAtom? (fl : Flags) (a : AtomN) : Option Atom :=
+  match (if fl.hasOcc then a.occ.fin? else some ⟨false, 1, 0⟩), (if fl.hasB then a.bf.fin? else some ⟨false, 0, 0⟩) with
+  | some occ, some bf =>
+    some { hetero := a.hetero, atomId := a.atomId, name := a.name, resName := a.resName, chain := a.chain,
+           resId := a.resId, insCode := a.insCode, element := a.element, occ := occ, bf := bf, charge := a.charge }
+  | _, _ => none
+
+def CoordN.toCoord? (c : CoordN) : Option Coord :=
+  match c.1.fin?, c.2.1.fin?, c.2.2.fin? with
+  | some x, some y, some z => some (x, y, z)
+  | _, _, _ => none
+
+def StructN.finite? (fl : Flags) (s : StructN) : Option Struct :=
+  match s.atoms.mapM (AtomN.toAtom? fl), s.models.mapM (fun m => m.mapM CoordN.toCoord?) with
+  | some atoms, some models => some { atoms := atoms, models := models, bonds := s.bonds }
+  | _, _ => none
 
 /-! ## `get_structure(model=k)`: `_get_atom_record_indices_for_model` -/
 
@@ -515,6 +587,106 @@ def readCell (lines0 : List (List Char)) : Option (Option CellRead) :=
   match (lines0.map (ljust 80)).find? (startsWith "CRYST1".toList) with
   | none => some none
   | some l => parseCryst1 l
+
+/-- `set_structure` on input that may contain NaN / ±inf: `np.isnan(coord).any()` and the `isfinite` test of
+`_check_number_columns` raise `BadStructureError` (like every other failed check) before anything is written. -/
+def writePdbN (fl : Flags) (cell : Option Cell) (s : StructN) : Except Err (List (List Char)) :=
+  match s.finite? fl with
+  | some s' => writePdbBox fl cell s'
+  | none => .error .badStructure
+
+/-! ## alternate locations (`get_structure(altloc=…)`, `filter_first_altloc`, `filter_highest_occupancy_altloc`) -/
+
+/-- what the altloc filters look at: residue key (chain, res_id, ins_code, res_name), altloc id, occupancy (10⁻²) -/
+structure AltRow where
+  key : List Char × Int × List Char × List Char
+  alt : Char
+  occ : Int
+  deriving DecidableEq, Repr
+
+/-- "no alternate location": `.`, `?`, blank -/
+def noAlt (c : Char) : Bool := c == '.' || c == '?' || c == ' '
+
+/-- consecutive rows of one residue (`get_residue_starts`) -/
+def runs : List AltRow → List (List AltRow)
+  | [] => []
+  | r :: rs =>
+    match runs rs with
+    | (q :: qs) :: rest => if q.key = r.key then (r :: q :: qs) :: rest else [r] :: (q :: qs) :: rest
+    | _ => [[r]]
+
+def letterIds (run : List AltRow) : List Char := (run.map (·.alt)).filter (fun c => !noAlt c)
+
+/-- `filter_first_altloc` inside one residue -/
+def firstMaskRun (run : List AltRow) : List Bool :=
+  match letterIds run with
+  | [] => run.map (fun r => noAlt r.alt)
+  | f :: _ => run.map (fun r => noAlt r.alt || r.alt == f)
+
+def insertChar (c : Char) : List Char → List Char
+  | [] => [c]
+  | d :: r => if c = d then d :: r else if c < d then c :: d :: r else d :: insertChar c r
+
+/-- `sorted(set(ids))` -/
+def sortedIds (ids : List Char) : List Char := ids.foldl (fun acc c => insertChar c acc) []
+
+def occSum (run : List AltRow) (id : Char) : Int := ((run.filter (fun r => r.alt == id)).map (·.occ)).foldl (· + ·) 0
+
+/-- the loop `if occupancy_sum > highest` starting from `highest = -1.0`, `highest_id = None` -/
+def bestId (run : List AltRow) (ids : List Char) : Int × Option Char :=
+  ids.foldl (fun st id => if st.1 < occSum run id then (occSum run id, some id) else st) (-100, none)
+
+/-- `filter_highest_occupancy_altloc` inside one residue -/
+def occMaskRun (run : List AltRow) : List Bool :=
+  match letterIds run with
+  | [] => run.map (fun r => noAlt r.alt)
+  | ids => run.map (fun r => noAlt r.alt || (bestId run (sortedIds ids)).2 == some r.alt)
+
+inductive AltMode where
+  | first | occupancy | all
+  deriving DecidableEq, Repr
+
+def altMask (mode : AltMode) (rows : List AltRow) : List Bool :=
+  match mode with
+  | .first => (runs rows).flatMap firstMaskRun
+  | .occupancy => (runs rows).flatMap occMaskRun
+  | .all => rows.map (fun _ => true)
+
+def applyMask {α : Type} (mask : List Bool) (l : List α) : List α := ((mask.zip l).filter (·.1)).map (·.2)
+
+def altRowOf (l : List Char) (a : AtomRead) : AltRow :=
+  { key := (a.chain, a.resId, a.insCode, a.resName), alt := (slice 16 17 l).headD ' ', occ := a.occ }
+
+/-- `get_structure(model=None, altloc=mode, extra_fields=all four, include_bonds=…)`; for `all` the altloc ids
+are returned as well -/
+def readPdbAlt (mode : AltMode) (inclBonds : Bool) (lines0 : List (List Char)) : R (FileRead × List Char) :=
+  let lines := lines0.map (ljust 80)
+  let ms := splitModels lines
+  match ms with
+  | [] => none
+  | m1 :: _ =>
+    if (ms.map List.length).sum != (lines.filter isAtomLine).length then none else
+    if ms.any (fun m => m.length != m1.length) then some (.error .invalidFile) else
+    if m1.isEmpty then none else
+    match mapMR parseAtomLineAny m1 with
+    | none => none
+    | some (.error e) => some (.error e)
+    | some (.ok atoms) =>
+      match mapMR (mapMR parseCoordLine) ms with
+      | none => none
+      | some (.error e) => some (.error e)
+      | some (.ok coords) =>
+        let rows := (m1.zip atoms).map fun p => altRowOf p.1 p.2
+        let mask := altMask mode rows
+        let atoms' := applyMask mask atoms
+        let coords' := coords.map (applyMask mask)
+        let alts := match mode with | .all => rows.map (·.alt) | _ => []
+        if inclBonds then
+          match readBonds (atoms'.map (·.atomId)) lines with
+          | none => none
+          | some (.error e) => some (.error e)
+          | some (.ok bs) => some (.ok ({ atoms := atoms', models := coords', bonds := bs }, alts))
+        else some (.ok ({ atoms := atoms', models := coords', bonds := [] }, alts))
 
 /-! ## Specification predicates used by the theorems (`Props/C07.lean`) -/
 
